@@ -1053,6 +1053,28 @@ impl C10Enc {
 			for r in &recips {
 				judge(out, self, "mode byte cleared".to_string(), guarded(|| open_with(&r.sec, &rebuild(container.clone(), 0))));
 			}
+			// a relay writes another address into the (unauthenticated) clear sender field of the envelope and leaves
+			// the ciphertext alone: the recipient must still see the ORIGINAL sender (from the encrypted metadata) or refuse
+			let injected = grin_wallet_libwallet::SlatepackAddress::new(&ed_pub(&ed_secret(c.salt, "injected-sender")));
+			let with_sender = {
+				let mut sp = env_sp.clone();
+				sp.payload = container.clone();
+				sp.mode = 1;
+				sp.sender = Some(injected);
+				byte_ser::to_bytes(&SlatepackBin(sp)).expect("serialise envelope")
+			};
+			for r in &recips {
+				self.tamper_edits += 1;
+				match guarded(|| open_with(&r.sec, &with_sender)) {
+					Opened::Rejected => {}
+					Opened::Panicked(f) => out.fail(f.sig, format!("clear sender injected into encrypted envelope: {}", f.detail)),
+					Opened::Decoded(sp, sl) => {
+						if let Some((k, d)) = differs(&exp, &sp, &sl) {
+							out.fail(format!("c10:envelope-sender-injected:accepted:{}", k), format!("an address written into the clear sender field of an encrypted envelope was taken over on decryption: {}", d));
+						}
+					}
+				}
+			}
 		}
 		// a sample through the armored owner API (own armor, recomputed checksum)
 		let wallet_recips: Vec<&Key> = recips.iter().filter(|r| r.id.is_some()).collect();
